@@ -528,19 +528,15 @@ func monotoneLoad(c *an.Ctx, roles map[string]*fileRole) {
 // comma-ok lookup in a GCAServer map that has delete sites; returns the map's field name.
 func errDependsOnShrinkingTable(p *an.Program, fn *ssa.Function) string {
 	fi := p.Info(fn)
-	for _, b := range fn.Blocks {
-		if len(b.Instrs) == 0 {
+	for _, o := range fi.Outcomes() {
+		if len(o.Results) == 0 {
 			continue
 		}
-		ret, ok := b.Instrs[len(b.Instrs)-1].(*ssa.Return)
-		if !ok || len(ret.Results) == 0 {
-			continue
-		}
-		et := fi.Term(ret.Results[len(ret.Results)-1])
+		et := o.Results[len(o.Results)-1]
 		if k, isC := et.IsConst(); isC && k == "nil" {
 			continue
 		}
-		for _, f := range fi.FactsAt(ret) {
+		for _, f := range o.Facts {
 			if f.Neg && f.T.K == an.KExt && f.T.S == "1" && f.T.A[0].K == an.KLkOK {
 				if fld, _, ok := mapFieldOfTerm(f.T.A[0].A[0]); ok && hasDeleteSite(p, fld) {
 					return fld
